@@ -67,6 +67,23 @@ def run_prelude(case, scratch):
                      piece_length=2 ** op["pl_exp"], progress=0)
 
 
+def spelled(case, root):
+    """The content path as the caller types it (same directory, another spelling)."""
+    sp = case.get("spell")
+    isdir = os.path.isdir(root)
+    parent, base = os.path.split(root)
+    if sp == "trailing-slash" and isdir:
+        return root + "/"
+    if sp == "dot-segment":
+        return os.path.join(parent, ".", base)
+    if sp == "double-sep":
+        return parent + "//" + base
+    if sp == "relative":
+        os.chdir(parent)
+        return base if not base.startswith("-") else "./" + base
+    return root
+
+
 def _setup(case, scratch, reach_names):
     env.install_enum_order(case.get("enum", "shuffle"), case.get("enum_seed", 0))
     run_prelude(case, scratch)
@@ -76,7 +93,7 @@ def _setup(case, scratch, reach_names):
     if tree["single"]:
         materialise(base, [[tree["name"], tree["files"][0][1], tree["files"][0][2]]])
     else:
-        materialise(root, tree["files"], tree["dirs"])
+        materialise(root, tree["files"], tree["dirs"], tree.get("links", ()))
     out = os.path.join(scratch, "out")
     os.makedirs(out, exist_ok=True)
     if case.get("remake") and not tree["single"]:
@@ -89,7 +106,8 @@ def _setup(case, scratch, reach_names):
         files = sorted(f[0] for f in tree["files"])
         from ..harness import content
         for _ in range(rng.choice([1, 1, 2])):
-            kind = rng.choice(["add-nested", "add-nested", "add-top", "delete", "grow", "shrink"])
+            kind = rng.choice(["add-nested", "add-nested", "add-top", "delete", "grow", "shrink", "rewrite-keep-mtime",
+                               "rewrite-keep-mtime"])
             victim = os.path.join(root, rng.choice(files))
             if kind == "add-nested":
                 sub = os.path.dirname(rng.choice(files)) or rng.choice(["newdir", "newdir/deep"])
@@ -106,6 +124,12 @@ def _setup(case, scratch, reach_names):
             elif kind == "grow" and os.path.exists(victim):
                 with open(victim, "ab") as fd:
                     fd.write(content(rng.randrange(1 << 20), rng.choice([1, 16384, 30001])))
+            elif kind == "rewrite-keep-mtime" and os.path.exists(victim) and os.path.getsize(victim):
+                # same name, same size, same timestamps, other bytes (cp -p / rsync -t / archive extraction)
+                st = os.stat(victim)
+                with open(victim, "r+b") as fd:
+                    fd.write(content(rng.randrange(1 << 20), st.st_size))
+                os.utime(victim, ns=(st.st_atime_ns, st.st_mtime_ns))
             elif kind == "shrink" and os.path.exists(victim):
                 with open(victim, "r+b") as fd:
                     fd.truncate(os.path.getsize(victim) // 2)
@@ -125,6 +149,7 @@ def _gen_common(rng, tier, routes, **treekw):
         "enum": rng.choice(["sorted", "shuffle", "reverse"]), "enum_seed": rng.randrange(1000),
         "prelude": gen_prelude(rng), "remake": rng.randrange(1, 1 << 30) if rng.random() < 0.2 else None,
         "swallowed": rng.choice([None, None, None, "announce", "url_list", "httpseeds"]),
+        "spell": rng.choice([None, None, None, "trailing-slash", "trailing-slash", "dot-segment", "relative", "double-sep"]),
     }
 
 
@@ -159,7 +184,7 @@ class C01:
         root, out, reach = _setup(case, scratch, ["Hasher._handle_partial", "Hasher.next_file", "Hasher.__next__",
                                                   "TorrentFile.assemble", "utils._filelist_total"])
         counters = {}
-        oc = drive.create(case["route"], root, os.path.join(out, "m.torrent"), piece_length=case["pl"],
+        oc = drive.create(case["route"], spelled(case, root), os.path.join(out, "m.torrent"), piece_length=case["pl"],
                           progress=case["progress"], swallowed=case.get("swallowed"))
         if case.get("swallowed"):
             counters["cases_path_given_via_list_option"] = 1
@@ -241,7 +266,7 @@ class C02:
                       "TorrentAssembler._traverse"]
         root, out, reach = _setup(case, scratch, names)
         counters = {}
-        oc = drive.create(r, root, os.path.join(out, "m.torrent"), piece_length=case["pl"],
+        oc = drive.create(r, spelled(case, root), os.path.join(out, "m.torrent"), piece_length=case["pl"],
                           progress=case["progress"])
         viol = []
         pl = 2 ** case["pl_exp"]
@@ -294,7 +319,7 @@ class C03:
                                               "FileHasher.__next__"]
         root, out, reach = _setup(case, scratch, names)
         counters = {}
-        oc = drive.create(r, root, os.path.join(out, "m.torrent"), piece_length=case["pl"],
+        oc = drive.create(r, spelled(case, root), os.path.join(out, "m.torrent"), piece_length=case["pl"],
                           progress=case["progress"])
         viol = []
         pl = 2 ** case["pl_exp"]
@@ -345,7 +370,7 @@ class C15:
     def run(case, scratch):
         root, out, reach = _setup(case, scratch, ["TorrentFile.assemble", "Hasher._handle_partial", "Hasher.__next__"])
         counters = {}
-        oc = drive.create(case["route"], root, os.path.join(out, "m.torrent"), piece_length=case["pl"],
+        oc = drive.create(case["route"], spelled(case, root), os.path.join(out, "m.torrent"), piece_length=case["pl"],
                           progress=case["progress"], align=True, swallowed=case.get("swallowed"))
         if case.get("swallowed"):
             counters["cases_path_given_via_list_option"] = 1
